@@ -431,6 +431,9 @@ enum WOp {
     Keep,
     /// burst of duplicate wakes
     Burst,
+    /// invoke (by reference) a waker kept earlier for this child — typically right after the child
+    /// was fired, i.e. a stale wake racing with the reuse of its slot
+    StaleRef,
 }
 
 fn invoke(w: HW, by_ref: bool) {
@@ -533,6 +536,14 @@ fn waker_thread(chans: Vec<(Arc<Chan>, bool, u32)>, ops: Vec<(usize, WOp)>, gate
                 let w = ch.st.lock().unwrap().waker.as_ref().map(|w| w.dup());
                 if let Some(w) = w {
                     kept.push((c, w));
+                }
+            }
+            WOp::StaleRef => {
+                if let Some((_, w)) = kept.iter().find(|(k, _)| *k == c) {
+                    WAKES.fetch_add(1, Ordering::Relaxed);
+                    STALE_WAKES.fetch_add(1, Ordering::Relaxed);
+                    reg::note_order(1);
+                    w.wake_by_ref();
                 }
             }
             WOp::Burst => {
@@ -736,10 +747,20 @@ pub fn scenario(mode: Mode, max_threads: usize, max_children: usize) {
             // fetch the waker ahead of time so that nothing but the crate orders the wake
             per_thread[t].push((c, WOp::Keep));
         }
+        let stale_after = !chans[c].0.atomic && rng.gen_bool(0.5);
+        if stale_after {
+            per_thread[t].push((c, WOp::Keep));
+        }
         for _ in 0..fires {
             per_thread[t].push((c, WOp::Fire));
             if rng.gen_bool(0.3) {
                 per_thread[t].push((c, WOp::Keep));
+            }
+        }
+        if stale_after {
+            // stale wakes right behind the completion: they race with the reuse of the slot
+            for _ in 0..rng.gen_range(1..3usize) {
+                per_thread[t].push((c, WOp::StaleRef));
             }
         }
     }
